@@ -1,6 +1,6 @@
 #!/usr/bin/env bash
 # tools/run_mutant.sh <patch.diff> <check-id>...   (development aid, not a registered check)
-# Applies a patch to a scratch worktree of /repo (outside /repo and /verif), confirms the
+# Applies a patch to a scratch worktree of /repo (at HEAD, or at the commit named by MUT_BASE) (outside /repo and /verif), confirms the
 # baseline tests still pass, runs the given checks against it, prints one line per check,
 # and removes the worktree again. Build output is kept in $MUT_TARGET between calls of a
 # batch and removed by `tools/run_mutant.sh --clean`.
@@ -13,7 +13,7 @@ if [ "${1:-}" = "--clean" ]; then
 fi
 PATCH="$(readlink -f "$1")"; shift
 git -C /repo worktree remove --force "$WT" 2>/dev/null; rm -rf "$WT"; git -C /repo worktree prune
-git -C /repo worktree add --detach "$WT" HEAD >/dev/null 2>&1 || { echo "cannot create worktree"; exit 2; }
+git -C /repo worktree add --detach "$WT" "${MUT_BASE:-HEAD}" >/dev/null 2>&1 || { echo "cannot create worktree"; exit 2; }
 if ! git -C "$WT" apply "$PATCH"; then echo "PATCH DOES NOT APPLY: $PATCH"; git -C /repo worktree remove --force "$WT"; exit 2; fi
 base="skipped"
 if [ "${SKIP_BASELINE:-0}" != 1 ]; then
